@@ -17,6 +17,7 @@
 package url
 
 import (
+	"strconv"
 	"strings"
 )
 
@@ -35,8 +36,6 @@ type Url struct {
 	searchParams     *SearchParams
 	validationErrors []error
 	parser           *parser
-	isIPv4           bool
-	isIPv6           bool
 }
 
 // Href implements WHATWG url api (https://url.spec.whatwg.org/#api)
@@ -297,12 +296,34 @@ func (u *Url) newUrlSearchParams() {
 	u.searchParams = usp
 }
 
+// IsIPv4 tells if the host is an IPv4 address. It is derived from the current host, so it stays
+// correct when the host is changed by a setter or copied from a base URL.
 func (u *Url) IsIPv4() bool {
-	return u.isIPv4
+	return u.host != nil && u.IsSpecialScheme() && isSerializedIPv4(*u.host)
 }
 
+// IsIPv6 tells if the host is an IPv6 address. It is derived from the current host, so it stays
+// correct when the host is changed by a setter or copied from a base URL.
 func (u *Url) IsIPv6() bool {
-	return u.isIPv6
+	return u.host != nil && strings.HasPrefix(*u.host, "[") && strings.HasSuffix(*u.host, "]")
+}
+
+// isSerializedIPv4 tells if host has the form produced by the IPv4 serializer: four decimal
+// numbers in the range 0-255 without leading zeros, separated by dots.
+func isSerializedIPv4(host string) bool {
+	parts := strings.Split(host, ".")
+	if len(parts) != 4 {
+		return false
+	}
+	for _, p := range parts {
+		if p == "" || len(p) > 3 || (len(p) > 1 && p[0] == '0') || !containsOnly(p, ASCIIDigit) {
+			return false
+		}
+		if n, _ := strconv.Atoi(p); n > 255 {
+			return false
+		}
+	}
+	return true
 }
 
 // Clone returns a deep copy of the URL.
@@ -319,8 +340,6 @@ func (u *Url) Clone() *Url {
 		query:       cloneStringPointer(u.query),
 		fragment:    cloneStringPointer(u.fragment),
 		parser:      u.parser,
-		isIPv4:      u.isIPv4,
-		isIPv6:      u.isIPv6,
 	}
 	// Only copy search params that already exist (reading u must not modify it), and attach the
 	// copy to the clone so that it does not write through to the original.
